@@ -3,7 +3,7 @@
 PARTIAL.  What is proof (Coq, Properties/C09.v): permutation invariance of every inventoried order-relevant
 set-iteration site (full since the fix of F09a), soundness of the diff decision (full for *.py files since
 the fix of F09b/F09f; whole trees: F09g open), agreement of the force path with the temp-dir path and the rerun corollary (refuted:
-F09c/d/e).  What is NOT a theorem and is only a differential oracle here: byte-level determinism of the whole
+F09c/d; F09e fixed with F07a).  What is NOT a theorem and is only a differential oracle here: byte-level determinism of the whole
 generator across PYTHONHASHSEED values, fresh/warm processes and output roots (sha256 of every file), and
 the end-to-end `generate; generate(no force)` / existing-tree-differs runs.
 
@@ -188,7 +188,7 @@ def gen_prop(rng, earlier: list[str]) -> dict:
     return {"type": "string", "nullable": True}
 
 
-def gen_schemas(rng, n: int, cycles: bool = False) -> dict:
+def gen_schemas(rng, n: int, cycles: bool = False, aliases: bool = True) -> dict:
     names = rng.sample(SCHEMA_NAMES, n)
     out: dict[str, Any] = {}
     for i, nm in enumerate(names):
@@ -204,6 +204,8 @@ def gen_schemas(rng, n: int, cycles: bool = False) -> dict:
             out[nm] = {"type": "string", "enum": ["on", "off", "idle"]}
         elif r < 0.32 and earlier:
             out[nm] = {"type": "array", "items": {"$ref": f"#/components/schemas/{rng.choice(earlier)}"}}
+        elif r < 0.42 and earlier and aliases:
+            out[nm] = {"$ref": f"#/components/schemas/{rng.choice(earlier)}"}   # top-level alias (registered under its own name)
         else:
             props = rng.sample(PROP_POOL, rng.randint(1, 5))
             sch: dict[str, Any] = {"type": "object", "properties": {p: gen_prop(rng, earlier) for p in props}}
@@ -527,7 +529,8 @@ def mode_abstract(spec: dict, package: str, core_package: str | None, found: lis
                     codes.add(int(c))
     core = (core_package or package + ".core").split(".")
     return {"client": package, "out": package.split("."), "core": core, "core_given": bool(core_package),
-            "shared": len(core) <= 2, "ops": ops, "codes": sorted(codes), "found": found}
+            "shared": True,  # since the fix of F11a every core below the project root is shared
+            "ops": ops, "codes": sorted(codes), "found": found}
 
 
 def gen_mode_case(rng) -> dict:
@@ -558,9 +561,12 @@ def gen_mode_case(rng) -> dict:
         cfg = {"package": "client", "core_package": "client.core", "others": []}
     elif r < 0.85:
         cfg = {"package": "ca", "core_package": "shared.core", "others": []}
-    else:
+    elif r < 0.93:
         cfg = {"package": "ca", "core_package": "shared.core",
                "others": [{"package": "cb", "codes": rng.sample(["403", "404", "410", "502"], rng.randint(1, 2))}]}
+    else:  # a core three levels deep is shared too (and keeps a registry) since the fix of F11a
+        cfg = {"package": "ca", "core_package": "libs.common.core",
+               "others": [{"package": "cb", "codes": rng.sample(["403", "404", "410", "502"], rng.randint(1, 2))}] if rng.random() < 0.6 else []}
     return {"spec": spec, **cfg}
 
 
@@ -1096,7 +1102,7 @@ def main(chk: Check, replay: dict | None = None) -> int:
     mode_cases = [run_mode_case(i) for i in mode_inputs]
     codes = chk.coq_eval(imports, "(gen_input * registry) * (bool * list path)", [c_mode_case(c) for c in mode_cases],
                          "run_modes", tag="modes") if chk.model_ok else None
-    chk.decide(mode_cases, codes, {1: "F09c", 2: "F09d", 3: "F09e"},
+    chk.decide(mode_cases, codes, {1: "F09c", 2: "F09d"},
                "modes: Diff.tree_force/tree_temp/rerun_differing = (rerun outcome, files reported by the real non-force run)")
     dist["modes"] = {"cases": len(mode_cases), "rerun_failed": sum(1 for c in mode_cases if not c["obs"]["rerun_ok"]),
                      "core_given": sum(1 for c in mode_cases if c["abs"]["core_given"]),
